@@ -325,6 +325,12 @@ func init() {
 		shim.Deterministic = true
 		shim.DeadlockWait = 5 * time.Second
 		defer func() { shim.Deterministic = false; shim.DeadlockWait = 0 }()
+		if c.Replay != nil {
+			if t, ok := c.Replay["cache_fill"].(float64); ok {
+				c13CacheSizes(c, int(t))
+				return
+			}
+		}
 		ops := c13Ops()
 		total := statespace.Stats{}
 		var statsOut []map[string]any
@@ -442,6 +448,9 @@ func init() {
 			st.Close()
 		}
 		c.Run.Set("repetition_layer_evaluations", repEvals)
+		cfEvals, cfStates := c13CacheSizes(c, -1)
+		c.Run.Set("cache_fill_states", cfStates)
+		c.Run.Set("cache_fill_evaluations", cfEvals)
 		fix, complete := true, true
 		for _, s := range statsOut {
 			if f, _ := s["fixpoint"].(bool); !f {
